@@ -24,6 +24,7 @@ EXPLANATION = (
     "definite disagreement (different normal forms confirmed by their values at the witness, or a definite wrong sign); the "
     "numbers of order types proven / undecided are reported. Elementwise safety of every kernel is C02/V1; operators are applied to the "
     "operands only after scalar() coercion (V8); kernels are pure (K1)"
+    "; every kernel returns the broadcast shape of its operands and never reduces over, indexes away or concatenates along an operand's dimension (V9 on the shape lattice)"
 )
 ASSUMPTIONS = [
     "real arithmetic: floating-point rounding (e.g. of a+b near 1) is not modelled",
@@ -31,7 +32,7 @@ ASSUMPTIONS = [
 ]
 LEVEL_SCOPE = ("Decides the listed clauses for every order type (piece) over real arithmetic, reporting only definite disagreements; floating-point "
                "rounding and the clauses listed as undecided are not decided.")
-FLOORS = {"V10": 2, "K1": 16, "F": 16, "L1": 16, "L2": 16, "L3": 16, "L4": 7, "L5": 16, "L6": 15, "V1": 16, "V8": 16}
+FLOORS = {"V9": 80, "V10": 2, "K1": 16, "F": 16, "L1": 16, "L2": 16, "L3": 16, "L4": 7, "L5": 16, "L6": 15, "V1": 16, "V8": 16}
 
 # documented formulas: cases in order (first match wins), over a, b
 NORMS: dict[str, dict] = {
@@ -138,6 +139,9 @@ def run(check: Check) -> None:
 
     if not numpy_pitfalls(check, "V10", {"fuzzylite/norm.py"}):
         return  # the kernels are not the elementwise expressions the interpreters assume
+    from .c02 import shapes
+
+    shapes(check, only_kernels_of=("Norm",))  # V9: every kernel returns the broadcast shape of its operands and never mixes their rows / sample points
     from ..ordertype import describe, flatten, spec_term
 
     p = check.program
